@@ -386,7 +386,14 @@ class _Factory:
 # ---------------------------------------------------------------------------------------
 
 
-def canon(x, reg: Reg | None, iter_order: bool = False):
+def canon(x, reg: Reg | None, iter_order: bool = False, objmap: dict | None = None):
+    r = _canon(x, reg, iter_order, objmap)
+    if objmap is not None:
+        objmap.setdefault(json.dumps(r, sort_keys=True), x)
+    return r
+
+
+def _canon(x, reg, iter_order, objmap):
     """Python object -> model value (wire JSON).  Exact classes only."""
     t = type(x)
     if x is None:
@@ -411,26 +418,26 @@ def canon(x, reg: Reg | None, iter_order: bool = False):
             out = []
             for f in dataclasses.fields(x):
                 if hasattr(x, f.name):
-                    out.append([f.name, canon(getattr(x, f.name), reg, iter_order)])
+                    out.append([f.name, canon(getattr(x, f.name), reg, iter_order, objmap)])
             return ["inst", cid, out]
         if isinstance(x, tuple):
-            return ["nt", cid, [canon(e, reg, iter_order) for e in x]]
+            return ["nt", cid, [canon(e, reg, iter_order, objmap) for e in x]]
     if t is list:
-        return ["coll", "list", [canon(e, reg, iter_order) for e in x]]
+        return ["coll", "list", [canon(e, reg, iter_order, objmap) for e in x]]
     if t is tuple:
-        return ["coll", "tuple", [canon(e, reg, iter_order) for e in x]]
+        return ["coll", "tuple", [canon(e, reg, iter_order, objmap) for e in x]]
     if t is set or t is frozenset:
-        items = [canon(e, reg, iter_order) for e in x]
+        items = [canon(e, reg, iter_order, objmap) for e in x]
         if not iter_order:
             items = sorted(items, key=lambda j: json.dumps(j, sort_keys=True))
         return ["coll", "set" if t is set else "frozenset", items]
     if t is collections.deque:
-        return ["coll", "deque", [canon(e, reg, iter_order) for e in x]]
+        return ["coll", "deque", [canon(e, reg, iter_order, objmap) for e in x]]
     if t is collections.ChainMap:
-        return ["coll", "chainmap", [canon(m, reg, iter_order) for m in x.maps]]
+        return ["coll", "chainmap", [canon(m, reg, iter_order, objmap) for m in x.maps]]
     for name, cls in MAP_CLASS.items():
         if t is cls:
-            return ["map", name, [[canon(k, reg, iter_order), canon(v, reg, iter_order)] for k, v in x.items()]]
+            return ["map", name, [[canon(k, reg, iter_order, objmap), canon(v, reg, iter_order, objmap)] for k, v in x.items()]]
     return ["tag", f"py:{t.__module__}.{t.__qualname__}", ["s", repr(x)]]
 
 
@@ -610,7 +617,7 @@ def _iter_leaf(obj):
     return list(obj)
 
 
-def build_oracle(ty, values, reg, direction: str):
+def build_oracle(ty, values, reg, direction: str, objmap: dict | None = None):
     """Graph of the uninterpreted operations on every node of `values`.
 
     direction 'pack': leaf printers;  'unpack': builtin constructors + leaf parsers;
@@ -638,10 +645,21 @@ def build_oracle(ty, values, reg, direction: str):
                 seen.add(key)
                 nodes.append(n)
     consts = ty_constants(ty)
+    if any((not isinstance(n, str)) and n[0] in ("tfix", "tunp", "nt") for n in ty_nodes(ty)):
+        consts = consts + [["i", str(k)] for k in range(-4, 7)]   # literal indexes used against mappings
+    if any(isinstance(n, list) and n[0] == "map" and n[1] == "counter" for n in nodes):
+        z = ["i", "0"]   # Counter.__missing__
+        if json.dumps(z) not in seen:
+            seen.add(json.dumps(z))
+            nodes.append(z)
 
     def run(opw, fn, node):
         try:
-            obj = from_v(node, reg)
+            obj = None
+            if objmap is not None:
+                obj = objmap.get(json.dumps(node, sort_keys=True))
+            if obj is None:
+                obj = from_v(node, reg)
         except Exception:
             return
         try:
